@@ -317,6 +317,14 @@ Theorem C10_next_prev_inverse : forall f n m c cy, NoDup (ids f) -> locate_f n f
 Proof. exact next_prev_inverse. Qed.
 Print Assumptions C10_next_prev_inverse.
 
+(* get_index is THE position of the node in its sibling list (= siblings(add_self=True)): no other position
+   holds a node with this identity *)
+Theorem C10_index_is_position : forall f n c, NoDup (ids f) -> locate_f n f = Some c ->
+  exists k, q_index c = Some k /\ nth_error (q_siblings c true) k = Some (c_self c) /\
+    forall j x, nth_error (q_siblings c true) j = Some x -> rid x = rid (c_self c) -> j = k.
+Proof. exact index_is_position. Qed.
+Print Assumptions C10_index_is_position.
+
 (* ================================================================== *)
 (* Source tie: lexical facts lifted from nutree/node.py (Generated.v,   *)
 (* section NAV) agree with what the model computes                       *)
